@@ -346,9 +346,10 @@ def main(argv=None):
     # known findings: replay each listed witness natively in strict mode; print KNOWN-FINDING while it still fails
     kf_lines = []
     for e in known.entries(pid, include_fixed=True):
-        w = e.get("witness")
-        if not w:
+        wv = known.witness(e, pid)
+        if not wv:
             continue
+        w = {"oid": wv[0], "values": wv[1]}
         ob = byid.get(w["oid"]) or find_ob(pid, w["oid"], a.tier, seed)
         if ob is None:
             harness_errors.append("known finding %s: witness obligation %s not found" % (e["id"], w["oid"]))
